@@ -309,7 +309,10 @@ CHECKS = {
                 "sent while the tower believes bitcoind is unreachable. Oracle per request: an answer arrives; status is 200, 4xx or 503; for (existing endpoint, POST, "
                 "acceptable size, JSON content type) a non-200 body is a JSON object {error, error_code} with a documented code and never 255, a 200 body carries "
                 "the documented reply fields (registration receipts are verified); requests malformed by construction are never answered 200, valid registrations "
-                "always are; every non-200 leaves the sqlite content unchanged; no 200 while unreachable; panic hook silent. distinct = distinct (method, path, body).",
+                "always are; every non-200 leaves the sqlite content unchanged and also what the tower reports from memory (get_subscription_info asked of the InternalAPI for every "
+                "user of the world before and after: slots, expiry, locators); every fourth shard runs a tower whose subscription slots are u32::MAX/2, so the third "
+                "registration of a user is the documented slot-overflow rejection (code 65; counted as slot_overflow_rejections); no 200 while unreachable; panic hook "
+                "silent. distinct = distinct (method, path, body).",
         "assumptions": [
             "every request carries a correct Content-Length and either Content-Type: application/json or none: header games (wrong length, other media types) are outside the stated quantifier",
             "requests are sent one at a time on fresh connections",
